@@ -513,15 +513,19 @@ pub open spec fn sorted_nd(s: Seq<u32>) -> bool { forall|i: int, j: int| 0 <= i 
 fn opq_sort_unstable(v: &mut Vec<u32>)
     ensures sorted_nd(final(v)@), final(v)@.to_multiset() == old(v)@.to_multiset(), sorted_nd(old(v)@) ==> final(v)@ == old(v)@,
 { unimplemented!() }
-/// every range denotes at least one line (what compress_lines produces; `expand` needs it)
+/// the ranges come one after the other without touching (what compress_lines produces - canonical lists are ascending -
+/// and what the untracked-file case builds directly: the single range `Range(1, n)`, n >= 1, which is NOT canonical for n == 1)
+pub open spec fn ranges_ascending(v: Seq<LineRange>) -> bool { forall|i: int, j: int| 0 <= i < j < v.len() ==> lr_hi(#[trigger] v[i]) < lr_lo(#[trigger] v[j]) }
+/// every range denotes at least one line (`expand` needs it)
 pub open spec fn ranges_nonempty(v: Seq<LineRange>) -> bool { forall|i: int| 0 <= i < v.len() ==> lr_nonempty(#[trigger] v[i]) }
 /// x is a line of one of the first n ranges
 pub open spec fn ranges_have_upto(v: Seq<LineRange>, n: int, x: int) -> bool { exists|i: int| 0 <= i < n && lr_has(#[trigger] v[i], x) }
 //#item file=src/authorship/virtual_attribution.rs kind=region name=split_unstaged_lines in=to_authorship_log_and_initial_working_log from="let mut unstaged_lines: Vec<u32> = Vec::new();" to="// Split line attributions into committed and uncommitted" from_nth=0 to_nth=0 impl="VirtualAttributions" to_exclusive=yes opaque='[{"expr": "unstaged_hunks.get(file_path)", "call": "opq_hunks_get(&unstaged_hunks, file_path)"}, {"expr": "unstaged_lines.extend(range.expand())", "call": "opq_extend_lines(&mut unstaged_lines, range.expand())"}, {"expr": "unstaged_lines.sort_unstable()", "call": "opq_sort_unstable(&mut unstaged_lines)"}]'
 //@ fn region_split_unstaged_lines(unstaged_hunks: HunkMap, file_path: &String) -> (unstaged_lines: Vec<u32>)
 //@     requires
-//@         // the per-file hunk lists are what compress_lines returns (proved there): canonical, every range non-empty
-//@         uh_get(unstaged_hunks, file_path@) is Some ==> ranges_canonical(uh_get(unstaged_hunks, file_path@)->Some_0@) && ranges_nonempty(uh_get(unstaged_hunks, file_path@)->Some_0@),
+//@         // the per-file hunk lists are ascending lists of non-empty ranges: compress_lines' output (proved canonical there) or the
+//@         // single `Range(1, line_count)` of an untracked file
+//@         uh_get(unstaged_hunks, file_path@) is Some ==> ranges_ascending(uh_get(unstaged_hunks, file_path@)->Some_0@) && ranges_nonempty(uh_get(unstaged_hunks, file_path@)->Some_0@),
 //@     ensures
 //@         // the list handed to the split is STRICTLY INCREASING (the split's precondition) and holds exactly the lines of the
 //@         // file's unstaged hunks - nothing for a file without unstaged hunks
@@ -533,7 +537,7 @@ pub open spec fn ranges_have_upto(v: Seq<LineRange>, n: int, x: int) -> bool { e
                 //@ let ghost rs = unstaged_ranges@;
                 for range in it_0: unstaged_ranges
                 //@     invariant
-                //@         rs == unstaged_ranges@, ranges_canonical(rs), ranges_nonempty(rs), it_0.snapshot@.remaining().len() == rs.len(),
+                //@         rs == unstaged_ranges@, ranges_ascending(rs), ranges_nonempty(rs), it_0.snapshot@.remaining().len() == rs.len(),
                 //@         forall|i: int| 0 <= i < rs.len() ==> *(#[trigger] it_0.snapshot@.remaining()[i]) == rs[i],
                 //@         strictly_inc(unstaged_lines@),
                 //@         forall|x: int| seq_has(unstaged_lines@, x) <==> ranges_have_upto(rs, it_0.index@, x),
@@ -542,7 +546,7 @@ pub open spec fn ranges_have_upto(v: Seq<LineRange>, n: int, x: int) -> bool { e
                 {
                     //@ let ghost k = it_0.index@;
                     //@ let ghost u0 = unstaged_lines@;
-                    //@ proof { assert(*range == rs[k]); assert(lr_nonempty(rs[k])); if k > 0 { assert(lr_hi(rs[k - 1]) + 1 < lr_lo(rs[k])); } }
+                    //@ proof { assert(*range == rs[k]); assert(lr_nonempty(rs[k])); if k > 0 { assert(lr_hi(rs[k - 1]) < lr_lo(rs[k])); } }
                     opq_extend_lines(&mut unstaged_lines, range.expand());
                     //@ proof {
                     //@     let u1 = unstaged_lines@;
